@@ -12,7 +12,6 @@ import (
 
 func init() { register("C31", "other", c31) }
 
-
 // C31 A block counts as notarized only with enough verified tickets.
 func c31(r *core.Report, p *core.Prog, thorough bool) {
 	r.Explain = "Decided: (shapes) VerifyTickets aggregates, for every ticket of the list, the ticket's own signature over the given block hash under the key of the node that the round's miner pool (GetMiners(round)) returns for the ticket's verifier id — unknown verifiers fail — and signals success only after the aggregate verified without error; VerifyNotarization succeeds only after a complete duplicate-verifier scan, reachedNotarization and VerifyTickets on the same list, hash and round; UpdateBlockNotarization marks a block notarized only when reachedNotarization holds for its own round, hash and ticket list, with the count threshold taken from that round's magic block; Block.AddVerificationTicket, MergeVerificationTickets and UnknownTickets never let a verifier id in twice. (Ingress typestate) every block, ticket and notarization that enters a miner through a BlockMessage is followed forward through calls, goroutines, closures and channel hand-offs: before such a block's own ticket list can count or be merged anywhere (MergeVerificationTickets / AddVerificationTicket / UpdateBlockNotarization / SetBlockNotarized / AddRoundBlock / AddNotarizedBlock…), and before received tickets are added to a block or to the round's ticket store, an error-checked verification of exactly those tickets (signatures and distinctness) must dominate; merging into an already notarized block is accepted. Not decided: BLS mathematics; blocks fetched on demand from other nodes (their verification is in block_fetcher, outside the message paths the property names); the stake-threshold arm's arithmetic."
